@@ -279,6 +279,10 @@ func runGraphCase(out *rec.Out, fam string, g *eng.Graph, vars map[string]any, v
 		defer ctl.Remove()
 		stats["perturbed_cases"]++
 	}
+	if rng.Intn(2) == 0 {
+		g.ShuffleDecl(rng.Intn)
+		stats["shuffled_declaration_order"]++
+	}
 	xmlText := g.XML()
 	if !o.noFrame {
 		out.Begin(fam)
